@@ -127,6 +127,14 @@ def check(ctx):
                clause="kept rows are exactly those whose condition is true")
         ctx.ob("LEN", p, "positions = nonzero(mask)", p.node, nz,
                "positions of true elements" if nz else "mask is not converted with nonzero/where", nontrivial=False)
+    pi = repo.fn(f"{DF}._parse_rows_from_integer")
+    rets = [n for n in body_nodes(pi.node) if isinstance(n, ast.Return)]
+    from ..pattern import pmatch as _pm
+    ok = bool(rets) and all(_pm(f"Vector.fast({pi.params[1]}, int)", r.value) is not None for r in rets)
+    ctx.ob("LEN", pi, norm(rets[0].value) if rets else "_parse_rows_from_integer", rets[0] if rets else pi.node, ok,
+           "the given positions reach the row index unchanged (order and repetitions kept)" if ok else
+           "integer positions are transformed (sorted / de-duplicated / filtered) before they index the rows: slice no longer keeps "
+           "exactly the given positions", clause="slice/slice_off keep/drop exactly the given positions")
     # ------------------------------------------------------------- SIB-2
     dn = repo.fn(f"{DF}.drop_na")
     acc = [n for n in body_nodes(dn.node) if isinstance(n, (ast.Assign, ast.AugAssign))
